@@ -372,9 +372,9 @@ pub fn run(args: &Args) -> ! {
     ctx.rule("poly_ray: simple polygons with 3-12 corners (rectangles, star-shaped, L) in random poses x rays; oracle = exact f64 ray/plane/even-odd with a 1 mm (or 1e-5/|n.d|) don't-care band; bounding box contains every exact corner. Non-trivial: a decided crossing inside the polygon's bounding box.");
     ctx.assume("rustc/std f64 arithmetic; proptest RNG and shrinker; serde_json for the worker protocol");
     ctx.replay_regressions(replay_one);
-    ctx.run_prop("bvh_boxes", t.pick(40_000, 1_000_000), boxes_case, check_bvh);
-    ctx.run_prop("bvh_polys", t.pick(20_000, 500_000), polys_case, check_bvh);
-    ctx.run_prop("poly_ray", t.pick(200_000, 5_000_000), poly_ray_case, check_poly_ray);
+    ctx.run_prop("bvh_boxes", t.pick(150_000, 2_000_000), boxes_case, check_bvh);
+    ctx.run_prop("bvh_polys", t.pick(60_000, 1_000_000), polys_case, check_bvh);
+    ctx.run_prop("poly_ray", t.pick(1_000_000, 10_000_000), poly_ray_case, check_poly_ray);
     for c in ["bvh_boxes/size/0", "bvh_boxes/size/<=leaf", "bvh_boxes/size/>leaf", "bvh_boxes/boxes/duplicates", "bvh_boxes/boxes/shared_centre", "bvh_boxes/ray/hit", "bvh_boxes/ray/miss", "poly_ray/hit", "poly_ray/miss"] {
         ctx.require_class(c);
     }
